@@ -268,13 +268,18 @@ def show_cond(c: Tuple) -> str:
 class Facts:
     """A conjunction of conditions assumed on the current path."""
 
-    __slots__ = ("conds",)
+    __slots__ = ("conds", "_lin", "_memo")
 
     def __init__(self, conds: Iterable[Tuple] = ()):
         self.conds: List[Tuple] = list(conds)
+        self._lin = None
+        self._memo: Dict[Any, Optional[bool]] = {}
 
     def copy(self) -> "Facts":
-        return Facts(self.conds)
+        f = Facts(self.conds)
+        f._lin = self._lin
+        f._memo = dict(self._memo)
+        return f
 
     def add(self, c: Tuple) -> None:
         if c[0] == "and":
@@ -285,35 +290,79 @@ class Facts:
             return
         if c not in self.conds:
             self.conds.append(c)
+            self._lin = None
+            self._memo = {}
 
     # linear part -----------------------------------------------------------
-    def _linear(self) -> Tuple[List[Aff], List[Aff]]:
-        ge: List[Aff] = []
-        ne: List[Aff] = []
-        for c in self.conds:
-            if c[0] == "ge0":
-                ge.append(c[1])
-            elif c[0] == "eq0":
-                ge.append(c[1])
-                ge.append(-c[1])
-            elif c[0] == "ne0":
-                ne.append(c[1])
-        # strengthen with disequalities: a>=0 & a!=0 => a-1>=0
-        for _ in range(2):
-            added = False
-            for n in ne:
-                if _fm_infeasible(ge + [-n - ONE]) and (n - ONE) not in ge:  # n >= 0 entailed
-                    ge.append(n - ONE)
-                    added = True
-                elif _fm_infeasible(ge + [n - ONE]) and (-n - ONE) not in ge:  # n <= 0 entailed
-                    ge.append(-n - ONE)
-                    added = True
-            if not added:
-                break
-        return ge, ne
+    def _linear(self, strong: bool = False) -> Tuple[List[Aff], List[Aff]]:
+        if self._lin is None:
+            ge: List[Aff] = []
+            ne: List[Aff] = []
+            for c in self.conds:
+                if c[0] == "ge0":
+                    ge.append(c[1])
+                elif c[0] == "eq0":
+                    ge.append(c[1])
+                    ge.append(-c[1])
+                elif c[0] == "ne0":
+                    ne.append(c[1])
+            self._lin = [ge, ne, None]
+        if not strong:
+            return self._lin[0], self._lin[1]
+        if self._lin[2] is None:
+            ge = list(self._lin[0])
+            ne = self._lin[1]
+            # strengthen with disequalities: a>=0 & a!=0 => a-1>=0
+            for _ in range(2):
+                added = False
+                for n in ne:
+                    if (n - ONE) not in ge and _fm_infeasible(ge + [-n - ONE]):  # n >= 0 entailed
+                        ge.append(n - ONE)
+                        added = True
+                    elif (-n - ONE) not in ge and _fm_infeasible(ge + [n - ONE]):  # n <= 0 entailed
+                        ge.append(-n - ONE)
+                        added = True
+                if not added:
+                    break
+            self._lin[2] = ge
+        return self._lin[2], self._lin[1]
 
     def decide(self, c: Tuple) -> Optional[bool]:
         """True: entailed; False: refuted; None: unknown."""
+        if c in self._memo:
+            return self._memo[c]
+        r = self._decide(c)
+        if r is None:
+            r = self._decide_by_cases(c)
+        self._memo[c] = r
+        return r
+
+    def _decide_by_cases(self, c: Tuple, depth: int = 0) -> Optional[bool]:
+        """Case split on a disjunctive fact (at most 3 levels)."""
+        if depth >= 3:
+            return None
+        for i, f in enumerate(self.conds):
+            if f[0] == "or":
+                results = []
+                for alt in (f[1], f[2]):
+                    g = Facts(self.conds[:i] + self.conds[i + 1 :])
+                    g.add(alt)
+                    if g.infeasible():
+                        continue
+                    r = g._decide(c)
+                    if r is None:
+                        r = g._decide_by_cases(c, depth + 1)
+                    results.append(r)
+                if results and all(r is True for r in results):
+                    return True
+                if results and all(r is False for r in results):
+                    return False
+                if not results:
+                    return True  # the facts are contradictory
+                return None
+        return None
+
+    def _decide(self, c: Tuple) -> Optional[bool]:
         k = const_cond(c)
         if k is not None:
             return k
@@ -340,7 +389,16 @@ class Facts:
             r = self.decide(c[1])
             return None if r is None else not r
         if tag in ("ge0", "eq0", "ne0"):
-            ge, ne = self._linear()
+            r = self._decide_linear(c, False)
+            if r is None and self._linear()[1]:
+                r = self._decide_linear(c, True)
+            return r
+        return None
+
+    def _decide_linear(self, c: Tuple, strong: bool) -> Optional[bool]:
+        tag = c[0]
+        if True:
+            ge, ne = self._linear(strong)
             q: Aff = c[1]
             if tag == "ge0":
                 if _fm_infeasible(ge + [-q - ONE]):
@@ -352,6 +410,14 @@ class Facts:
             neg = _fm_infeasible(ge + [q - ONE])  # q <= 0 entailed
             is_zero = pos and neg
             non_zero = _fm_infeasible(ge + [q, -q]) or q in ne or (-q) in ne
+            if not non_zero and not is_zero:
+                for n in ne:
+                    for d in (q - n, q + n):
+                        if _fm_infeasible(ge + [-d - ONE]) and _fm_infeasible(ge + [d - ONE]):  # d == 0 entailed
+                            non_zero = True
+                            break
+                    if non_zero:
+                        break
             if tag == "eq0":
                 return True if is_zero else (False if non_zero else None)
             return True if non_zero else (False if is_zero else None)
@@ -370,47 +436,50 @@ class Facts:
         return False
 
 
-def _fm_infeasible(cons: List[Aff], cap: int = 4000) -> bool:
+def _fm_infeasible(cons: List[Aff], cap: int = 3000) -> bool:
     """Is the system {a >= 0 for a in cons} infeasible over the integers?  (Sound, incomplete:
-    rational Fourier-Motzkin with integer tightening of single constraints.)"""
-    rows: List[Tuple[Dict[Any, Fraction], Fraction]] = []
+    Fourier-Motzkin elimination with integer tightening of every derived constraint.)"""
+    rows: List[Tuple[Dict[Any, int], int]] = []
+    seen = set()
     for a in cons:
-        rows.append(({at: Fraction(k) for at, k in a.t}, Fraction(a.c)))
+        if not a.t:
+            if a.c < 0:
+                return True
+            continue
+        if a in seen:
+            continue
+        seen.add(a)
+        rows.append((dict(a.t), a.c))
     while True:
-        # tighten & check constants
-        new_rows = []
+        new_rows: List[Tuple[Dict[Any, int], int]] = []
+        keys = set()
         for d, c in rows:
-            d = {a: k for a, k in d.items() if k != 0}
             if not d:
                 if c < 0:
                     return True
                 continue
-            # integer tightening: divide by gcd of coefficients, floor the constant
-            ks = list(d.values())
-            den = 1
-            for k in ks:
-                den = den * k.denominator // _gcd(den, k.denominator)
-            den2 = c.denominator
-            ints = [int(k * den) for k in ks]
             g = 0
-            for i in ints:
-                g = _gcd(g, abs(i))
-            if g:
-                d = {a: Fraction(int(k * den) // g) for a, k in d.items()}
-                cc = c * den / g
-                c = Fraction(cc.numerator // cc.denominator)  # floor
+            for k in d.values():
+                g = _gcd(g, abs(k))
+            if g > 1:
+                d = {a: k // g for a, k in d.items()}
+                c = c // g  # floor: integer tightening
+            key = (tuple(sorted(((repr(a), k) for a, k in d.items()))), )
             new_rows.append((d, c))
-        rows = new_rows
+        # keep only the tightest constant per left-hand side
+        best: Dict[Any, Tuple[Dict[Any, int], int]] = {}
+        for d, c in new_rows:
+            key = frozenset(d.items())
+            if key not in best or c < best[key][1]:
+                best[key] = (d, c)
+        rows = list(best.values())
         if not rows:
             return False
-        # pick the variable with the fewest pos*neg products
         var_stats: Dict[Any, List[int]] = {}
         for d, _ in rows:
             for a, k in d.items():
                 st = var_stats.setdefault(a, [0, 0])
                 st[0 if k > 0 else 1] += 1
-        if not var_stats:
-            return False
         v = min(var_stats, key=lambda a: (var_stats[a][0] * var_stats[a][1], repr(a)))
         pos = [(d, c) for d, c in rows if d.get(v, 0) > 0]
         neg = [(d, c) for d, c in rows if d.get(v, 0) < 0]
@@ -418,15 +487,20 @@ def _fm_infeasible(cons: List[Aff], cap: int = 4000) -> bool:
         if len(pos) * len(neg) + len(rest) > cap:
             return False
         for dp, cp in pos:
+            kp = dp[v]
             for dn, cn in neg:
-                kp, kn = dp[v], -dn[v]
-                d: Dict[Any, Fraction] = {}
+                kn = -dn[v]
+                d: Dict[Any, int] = {}
                 for a, k in dp.items():
                     if a != v:
-                        d[a] = d.get(a, 0) + k * kn
+                        d[a] = k * kn
                 for a, k in dn.items():
                     if a != v:
-                        d[a] = d.get(a, 0) + k * kp
+                        nk = d.get(a, 0) + k * kp
+                        if nk:
+                            d[a] = nk
+                        elif a in d:
+                            del d[a]
                 rest.append((d, cp * kn + cn * kp))
         rows = rest
 
@@ -435,3 +509,37 @@ def _gcd(a: int, b: int) -> int:
     while b:
         a, b = b, a % b
     return a
+
+
+# ---------------------------------------------------------------- substitution
+def subst(x: Any, m: Dict[Any, "Aff"]) -> Any:
+    """Replace atoms by affine forms, recursively inside atoms / conditions."""
+    if isinstance(x, Aff):
+        out = Aff.const(x.c)
+        for a, k in x.t:
+            if a in m:
+                out = out + m[a].scale(k)
+            else:
+                na = subst(a, m)
+                out = out + (na.scale(k) if isinstance(na, Aff) else Aff.atom(na, k))
+        return out
+    if isinstance(x, tuple):
+        if x in m:
+            return m[x]
+        return tuple(subst(y, m) for y in x)
+    return x
+
+
+def atoms_in(x: Any, acc: Optional[List[Any]] = None) -> List[Any]:
+    """All atoms occurring (recursively) in a term / condition."""
+    if acc is None:
+        acc = []
+    if isinstance(x, Aff):
+        for a, _ in x.t:
+            if a not in acc:
+                acc.append(a)
+            atoms_in(a, acc)
+    elif isinstance(x, tuple):
+        for y in x:
+            atoms_in(y, acc)
+    return acc
